@@ -23,6 +23,8 @@ email_templates = [
 ]
 
 this_year = datetime.datetime.today().year
+# how much of the uuid a `fake: username` keeps at the very least
+UNIQUE_MIN_LEN = 16
 DateLike = T.Union[datetime.date, datetime.datetime, datetime.timedelta, str, int]
 TimeZoneAsRelDelta = T.Union[dateutil.relativedelta.relativedelta, T.Literal[False]]
 UTCAsRelDelta = dateutil.relativedelta.relativedelta(hours=0)
@@ -40,11 +42,17 @@ class FakeNames(T.NamedTuple):
         domain = self.f.hostname()
         already_created = self._already_have(("firstname", "lastname"))
         if matching and all(already_created):
-            namepart = f"{already_created[0]}.{already_created[1]}_{self.f.uuid4()}"
+            names = f"{already_created[0]}.{already_created[1]}"
         else:
-            namepart = f"{self.f.first_name()}_{self.f.last_name()}_{self.f.uuid4()}"
+            names = f"{self.f.first_name()}_{self.f.last_name()}"
+        unique = self.f.uuid4()
 
-        namepart_max_len = 80 - (len(domain) + 1)
+        # The uuid is what makes the username unique. When space is short the
+        # names are shortened first, as far as needed to keep the first
+        # UNIQUE_MIN_LEN characters of the uuid; only then is the uuid cut.
+        namepart_max_len = max(80 - (len(domain) + 1), 0)
+        names = names[0 : max(namepart_max_len - (UNIQUE_MIN_LEN + 1), 0)]
+        namepart = f"{names}_{unique}" if names else unique
         namepart = namepart[0:namepart_max_len]
         return f"{namepart}@{domain}"
 
